@@ -23,6 +23,19 @@ TEAMS = [2, 3, 4, 5, 7, 8, 13, 16, 17, 32, 61]
 TEAM_W = [6, 5, 6, 3, 4, 5, 2, 4, 2, 2, 1]
 STRATS = ["random", "rtc_perm", "round_robin", "starve_one", "greedy_one", "reverse", "rtc_id"]
 POISONS = [0xA5, 0x5A, 0xFF, 0x7F]
+# window_pct choices for workloads that run few distinct region functions per call
+FEW_REGION_WORKLOADS = {
+    "evaluators": [100, 100, 50],
+    "atc_misc": [100, 50],
+    "misc_direct": [100, 50],
+    "debug_numint": [50, 100, 20],
+    "plan_coefs": [50, 20, 100],
+    "sdmx": [50, 20, 20],
+    "legacy_direct": [50, 20, 20],
+    "legacy_sdmx": [50, 20, 20],
+    "pbc_helpers": [50, 20, 20],
+    "vxc_numint": [50, 20, 20],
+}
 RTOL = 1e-9
 ATOL_REL = 1e-12
 MAX_STEPS = 4_000_000_000
@@ -114,17 +127,17 @@ def plan(tier, seed, args):
         table = {
             "nldf_gen": (24, 4, 24, 8),
             "nldf_grad": (16, 4, 24, 10),
-            "evaluators": (16, 5, 12, 8),
-            "sdmx": (16, 5, 16, 8),
-            "debug_numint": (8, 5, 8, 8),
-            "plan_coefs": (16, 5, 16, 8),
+            "evaluators": (16, 5, 40, 8),
+            "sdmx": (16, 5, 20, 8),
+            "debug_numint": (8, 5, 16, 8),
+            "plan_coefs": (16, 5, 24, 8),
             "e2e": (8, 2, 3, 2),
-            "vxc_numint": (6, 5, 4, 6),
-            "pbc_helpers": (8, 5, 6, 6),
-            "atc_misc": (8, 5, 6, 6),
-            "misc_direct": (6, 5, 6, 6),
-            "legacy_direct": (8, 5, 8, 6),
-            "legacy_sdmx": (6, 5, 6, 6),
+            "vxc_numint": (6, 5, 10, 6),
+            "pbc_helpers": (8, 5, 12, 6),
+            "atc_misc": (8, 5, 12, 6),
+            "misc_direct": (6, 5, 16, 6),
+            "legacy_direct": (8, 5, 16, 6),
+            "legacy_sdmx": (6, 5, 10, 6),
         }
     else:
         table = {
@@ -154,6 +167,12 @@ def plan(tier, seed, args):
                 if variant == "simtrace" and wl == "e2e":
                     wp["mol"] = r.choice(["H2", "HeH+"])
                 scheds = [draw_sched(r, variant) for _ in range(k)]
+                if variant == "simtrace" and wl in FEW_REGION_WORKLOADS:
+                    # these workloads execute only a handful of region functions: a window of
+                    # 5-20 % of all functions would mostly select none of them
+                    for s_ in scheds:
+                        if s_["preempt_mean"] <= 100:
+                            s_["window_pct"] = r.choice(FEW_REGION_WORKLOADS[wl])
                 if variant == "simtrace" and wl == "e2e":
                     for s in scheds:
                         s["window_pct"] = min(s["window_pct"], 10)
